@@ -1,14 +1,360 @@
 /-
-Props/C13.lean — property C13 (work in progress: theorems are being added).
+Props/C13.lean — property C13: the direct Fourier transform, its preloaded variant and its adjoint
+are exact and mutually consistent; the interferometer normal equations are the noise-weighted
+real-plus-imaginary Gram products.
+
+All theorems are about the `Impl` layer of Model/DFT.lean (the loop transliterations of
+`autoarray/operators/transformer_util.py`, `transformer.py`, `inversion_interferometer_util.py`,
+`interferometer/mapping.py`), for every mask / grid, every baseline list (zero and repeated baselines
+included: nothing is assumed about them), every image, every real matrix and every complex data /
+noise list, over an arbitrary commutative ring (field where a division occurs).  `cos`, `sin` and `π`
+are arbitrary parameters; only the adjoint clause needs `cos (-x) = cos x`, `sin (-x) = -sin x`,
+discharged for `Real.cos` / `Real.sin` at the end.  Complex numbers are pairs `Cx`.
+Helper lemmas live in Proofs/DFT.lean.
 -/
 import Model.DFT
+import Model.Slim
+import Proofs.DFT
+import Mathlib.Analysis.SpecialFunctions.Trigonometric.Basic
 
-open Model
+open Model Model.Impl.DFT Model.DFTProofs
 
 namespace C13
 
-/-- placeholder while the file is built up: a point-set array reads back the value written. -/
-theorem pointSet_get_self {β : Type} (a : Impl.DFT.Arr β) (k : Nat) (v : β) :
-    (Impl.DFT.pointSet a k v).get k = v := by simp [Impl.DFT.pointSet]
+variable {α : Type}
+
+/-! ## (a) visibilities are the direct sums; preloaded tables change nothing -/
+
+/-- (a0) the phase: for a pixel centre `(y, x)` and a baseline `(u, v)` the forward transform uses
+    `θ = -2π (x u + y v)`, the adjoint `+2π (x u + y v)`. -/
+theorem a_phase [CommRing α] (pi y x u v : α) :
+    phase pi (y, x) (u, v) = -2 * pi * (x * u + y * v)
+    ∧ phasePos pi (y, x) (u, v) = 2 * pi * (x * u + y * v) := by
+  exact ⟨rfl, rfl⟩
+
+/-- (a1) the transformer's grid is the list of unmasked pixel centres, in slim (row-major) order,
+    converted from arc-seconds to radians: pixel `(i, j)` of the `H×W` frame sits at
+    `(o_y + ((H-1)/2 - i) s_y, o_x + (j - (W-1)/2) s_x) · π / 648000`. -/
+theorem a_grid_is_pixel_centres_in_radians [Field α] (pi : α) (m : Mask) (sy sx oy ox : α)
+    (hsy : sy ≠ 0) (hsx : sx ≠ 0) :
+    transformerGrid pi m sy sx oy ox
+      = (Impl.nativeForSlim m).map fun p =>
+          ((oy + ((((m.h - 1 : Nat) : α)) / 2 - p.1) * sy) * pi / ((648000 : Nat) : α),
+           (ox + ((p.2 : α) - (((m.w - 1 : Nat) : α)) / 2) * sx) * pi / ((648000 : Nat) : α)) :=
+  transformerGrid_eq pi m sy sx oy ox hsy hsx
+
+/-- (a2) `visibilities_from`: one visibility per baseline, `V_k = Σ_p I_p · (cos θ_pk, sin θ_pk)` with
+    `θ_pk` the phase of pixel `p` and baseline `k` — whether or not the transform tables were
+    preloaded. -/
+theorem a_visibilities [CommRing α] (cos sin : α → α) (pi : α) (preload : Bool) (image : List α)
+    (grid uv : List (α × α)) (hlen : image.length = grid.length) :
+    visibilitiesFrom cos sin pi preload image grid uv
+      = (List.range uv.length).map fun k =>
+          (⟨((List.range image.length).map fun p =>
+                image.getD p 0 * cos (phase pi (at2 grid p) (at2 uv k))).sum,
+            ((List.range image.length).map fun p =>
+                image.getD p 0 * sin (phase pi (at2 grid p) (at2 uv k))).sum⟩ : Cx α) := by
+  unfold visibilitiesFrom Arr.toList
+  cases preload
+  · obtain ⟨hn, h⟩ := visibilitiesJit_spec cos sin pi image grid uv
+    simp only [Bool.false_eq_true, if_false]
+    rw [hn]
+    apply List.map_congr_left
+    intro k hk
+    exact h k (by simpa using hk)
+  · obtain ⟨hn, h⟩ := visibilitiesViaPreload_spec cos sin pi image grid uv (le_of_eq hlen)
+    simp only [if_true]
+    rw [hn]
+    apply List.map_congr_left
+    intro k hk
+    exact h k (by simpa using hk)
+
+/-- (a3) preloaded and non-preloaded transforms are identical, for images and for mapping matrices. -/
+theorem a_preload_eq [CommRing α] [BEq α] [LawfulBEq α] (cos sin : α → α) (pi : α) (image : List α)
+    (M : List (List α)) (nCols : Nat) (grid uv : List (α × α))
+    (hlen : image.length = grid.length) (hM : M.length = grid.length) :
+    visibilitiesFrom cos sin pi true image grid uv = visibilitiesFrom cos sin pi false image grid uv
+    ∧ transformMappingMatrix keepNonzero cos sin pi true M nCols grid uv
+        = transformMappingMatrix keepNonzero cos sin pi false M nCols grid uv := by
+  refine ⟨by rw [a_visibilities cos sin pi true image grid uv hlen,
+                 a_visibilities cos sin pi false image grid uv hlen], ?_⟩
+  have hk : ∀ p c, p < M.length → c < nCols → keepNonzero (matAt M p c) = false → matAt M p c = 0 :=
+    fun p c _ _ => keepNonzero_spec _
+  obtain ⟨a1, a2, a3⟩ := transformedPreload_spec keepNonzero cos sin pi M M.length nCols grid uv hk
+    (le_of_eq hM)
+  obtain ⟨b1, b2, b3⟩ := transformedJit_spec keepNonzero cos sin pi M M.length nCols grid uv hk
+  unfold transformMappingMatrix Arr2.toLists
+  simp only [if_true, Bool.false_eq_true, if_false]
+  rw [a1, a2, b1, b2]
+  apply List.map_congr_left
+  intro k hk'
+  apply List.map_congr_left
+  intro c hc
+  rw [a3 k c (by simpa using hk') (by simpa using hc), b3 k c (by simpa using hk') (by simpa using hc)]
+
+/-! ## (b) the transformed mapping matrix is the operator applied to every column -/
+
+/-- (b1) for **every** real matrix `M` (entries of any sign): entry `[k, c]` of
+    `transform_mapping_matrix M` is the visibility `k` of column `c` of `M`,
+    `Σ_p M[p,c] · (cos θ_pk, sin θ_pk)`; preloaded or not. -/
+theorem b_transformed_mapping_matrix [CommRing α] [BEq α] [LawfulBEq α] (cos sin : α → α) (pi : α)
+    (preload : Bool) (M : List (List α)) (nCols : Nat) (grid uv : List (α × α))
+    (hM : M.length = grid.length) :
+    transformMappingMatrix keepNonzero cos sin pi preload M nCols grid uv
+      = (List.range uv.length).map fun k => (List.range nCols).map fun c =>
+          (⟨((List.range M.length).map fun p =>
+                matAt M p c * cos (phase pi (at2 grid p) (at2 uv k))).sum,
+            ((List.range M.length).map fun p =>
+                matAt M p c * sin (phase pi (at2 grid p) (at2 uv k))).sum⟩ : Cx α) := by
+  have hk : ∀ p c, p < M.length → c < nCols → keepNonzero (matAt M p c) = false → matAt M p c = 0 :=
+    fun p c _ _ => keepNonzero_spec _
+  have hspec : ∀ k c, Spec.visibility cos sin pi (Spec.column M M.length c) grid (at2 uv k)
+      = (⟨((List.range M.length).map fun p =>
+                matAt M p c * cos (phase pi (at2 grid p) (at2 uv k))).sum,
+            ((List.range M.length).map fun p =>
+                matAt M p c * sin (phase pi (at2 grid p) (at2 uv k))).sum⟩ : Cx α) := by
+    intro k c
+    unfold Spec.visibility
+    rw [Spec.column_length]
+    congr 1
+    · congr 1
+      apply List.map_congr_left
+      intro p hp
+      rw [Spec.column_getD _ _ _ _ (by simpa using hp)]
+    · congr 1
+      apply List.map_congr_left
+      intro p hp
+      rw [Spec.column_getD _ _ _ _ (by simpa using hp)]
+  unfold transformMappingMatrix Arr2.toLists
+  cases preload
+  · obtain ⟨b1, b2, b3⟩ := transformedJit_spec keepNonzero cos sin pi M M.length nCols grid uv hk
+    simp only [Bool.false_eq_true, if_false]
+    rw [b1, b2]
+    apply List.map_congr_left
+    intro k hk'
+    apply List.map_congr_left
+    intro c hc
+    rw [b3 k c (by simpa using hk') (by simpa using hc), hspec]
+  · obtain ⟨a1, a2, a3⟩ := transformedPreload_spec keepNonzero cos sin pi M M.length nCols grid uv hk
+      (le_of_eq hM)
+    simp only [if_true]
+    rw [a1, a2]
+    apply List.map_congr_left
+    intro k hk'
+    apply List.map_congr_left
+    intro c hc
+    rw [a3 k c (by simpa using hk') (by simpa using hc), hspec]
+
+/-- (b2) the same statement as "operator applied to each column": entry `[k, c]` equals entry `k` of
+    `visibilities_from` applied to column `c` of `M` read as an image. -/
+theorem b_columnwise_operator [CommRing α] [BEq α] [LawfulBEq α] (cos sin : α → α) (pi : α)
+    (preload : Bool) (M : List (List α)) (nCols : Nat) (grid uv : List (α × α))
+    (hM : M.length = grid.length) (k c : Nat) (hk : k < uv.length) (hc : c < nCols) :
+    ((transformMappingMatrix keepNonzero cos sin pi preload M nCols grid uv).getD k []).getD c ⟨0, 0⟩
+      = (visibilitiesFrom cos sin pi preload ((List.range M.length).map fun p => matAt M p c) grid uv).getD
+          k ⟨0, 0⟩ := by
+  rw [b_transformed_mapping_matrix cos sin pi preload M nCols grid uv hM,
+    a_visibilities cos sin pi preload _ grid uv (by simpa using hM)]
+  simp only [List.getD_eq_getElem?_getD, List.getElem?_map, List.getElem?_range hk,
+    List.getElem?_range hc, Option.map_some, Option.getD_some, List.length_map, List.length_range]
+  congr 1
+  · congr 1
+    apply List.map_congr_left
+    intro p hp
+    have hp' : p < M.length := by simpa using hp
+    simp [List.getElem?_range hp']
+  · congr 1
+    apply List.map_congr_left
+    intro p hp
+    have hp' : p < M.length := by simpa using hp
+    simp [List.getElem?_range hp']
+
+/-- (b3) the sparsity test the code used before the D11 repair (`value > 0`) gives the same result
+    only for matrices without negative entries … -/
+theorem b_positive_test_partial [Field α] [LinearOrder α] (cos sin : α → α) (pi : α)
+    (M : List (List α)) (nCols : Nat) (grid uv : List (α × α))
+    (hnonneg : ∀ p c, p < M.length → c < nCols → 0 ≤ matAt M p c)
+    (k c : Nat) (hk : k < uv.length) (hc : c < nCols) :
+    (transformedMappingMatrixJit keepPositive cos sin pi M M.length nCols grid uv).get k c
+      = (⟨((List.range M.length).map fun p =>
+                matAt M p c * cos (phase pi (at2 grid p) (at2 uv k))).sum,
+            ((List.range M.length).map fun p =>
+                matAt M p c * sin (phase pi (at2 grid p) (at2 uv k))).sum⟩ : Cx α) := by
+  obtain ⟨_, _, b3⟩ := transformedJit_spec keepPositive cos sin pi M M.length nCols grid uv
+    (fun p c hp hc' => keepPositive_spec_of_nonneg _ (hnonneg p c hp hc'))
+  rw [b3 k c hk hc]
+  unfold Spec.visibility
+  rw [Spec.column_length]
+  congr 1
+  · congr 1
+    apply List.map_congr_left
+    intro p hp
+    rw [Spec.column_getD _ _ _ _ (by simpa using hp)]
+  · congr 1
+    apply List.map_congr_left
+    intro p hp
+    rw [Spec.column_getD _ _ _ _ (by simpa using hp)]
+
+/-- (b4) … and is wrong as soon as an entry is negative: with the single entry `-1`, one pixel and one
+    baseline (take `cos = 1`, `sin = 0`, i.e. the zero baseline) the `> 0` test returns `0` where the
+    operator gives `-1`, while the repaired `!= 0` test returns `-1`.  This is defect D11. -/
+theorem b_positive_test_drops_negative :
+    (transformedMappingMatrixJit (α := Int) keepPositive (fun _ => 1) (fun _ => 0) 3 [[-1]] 1 1
+        [(0, 0)] [(0, 0)]).get 0 0 = ⟨0, 0⟩
+    ∧ (transformedMappingMatrixJit (α := Int) keepNonzero (fun _ => 1) (fun _ => 0) 3 [[-1]] 1 1
+        [(0, 0)] [(0, 0)]).get 0 0 = ⟨-1, 0⟩ := by
+  decide
+
+/-! ## (c) the image returned from visibilities is the real part of the conjugate transpose -/
+
+/-- (c1) `image_from`: pixel `p` receives `Σ_k (Re V_k · cos φ_pk − Im V_k · sin φ_pk)` with
+    `φ_pk = +2π (x_p u_k + y_p v_k)`. -/
+theorem c_image_from [CommRing α] (cos sin : α → α) (pi : α) (grid uv : List (α × α))
+    (vis : List (Cx α)) :
+    imageFrom cos sin pi grid uv vis
+      = (List.range grid.length).map fun p =>
+          ((List.range uv.length).map fun k =>
+            (vis.getD k ⟨0, 0⟩).re * cos (phasePos pi (at2 grid p) (at2 uv k))
+              - (vis.getD k ⟨0, 0⟩).im * sin (phasePos pi (at2 grid p) (at2 uv k))).sum := by
+  unfold imageFrom Arr.toList
+  obtain ⟨hn, h⟩ := imageViaJit_spec cos sin pi grid.length grid uv vis
+  rw [hn]
+  apply List.map_congr_left
+  intro p hp
+  rw [h p (by simpa using hp)]
+  rfl
+
+/-- (c2) for an even `cos` and an odd `sin` this is `Σ_k Re( conj(A[k,p]) · V_k )`, the real part of
+    the conjugate-transpose of the forward operator `A[k,p] = (cos θ_pk, sin θ_pk)` applied to `V`. -/
+theorem c_image_is_real_part_of_conjugate_transpose [CommRing α] (cos sin : α → α)
+    (hcos : ∀ x, cos (-x) = cos x) (hsin : ∀ x, sin (-x) = -sin x) (pi : α)
+    (grid uv : List (α × α)) (vis : List (Cx α)) :
+    imageFrom cos sin pi grid uv vis
+      = (List.range grid.length).map fun p =>
+          ((List.range uv.length).map fun k =>
+            cos (phase pi (at2 grid p) (at2 uv k)) * (vis.getD k ⟨0, 0⟩).re
+              + sin (phase pi (at2 grid p) (at2 uv k)) * (vis.getD k ⟨0, 0⟩).im).sum := by
+  rw [c_image_from]
+  apply List.map_congr_left
+  intro p _
+  have := adjointAt_eq_reConj cos sin hcos hsin pi (at2 grid p) uv vis
+  unfold Spec.adjointAt Spec.reConjMul Spec.opEntry at this
+  exact this
+
+/-- (c3) adjointness: `⟨A x, V⟩ = ⟨x, image_from V⟩` for every image `x` and every `V`
+    (real inner products, `⟨a, b⟩ = Σ Re(conj a · b)`). -/
+theorem c_adjoint_identity [CommRing α] (cos sin : α → α)
+    (hcos : ∀ x, cos (-x) = cos x) (hsin : ∀ x, sin (-x) = -sin x) (pi : α)
+    (x : List α) (grid uv : List (α × α)) (vis : List (Cx α)) (hx : x.length = grid.length) :
+    ((List.range uv.length).map fun k =>
+        ((visibilitiesFrom cos sin pi false x grid uv).getD k ⟨0, 0⟩).re * (vis.getD k ⟨0, 0⟩).re
+          + ((visibilitiesFrom cos sin pi false x grid uv).getD k ⟨0, 0⟩).im * (vis.getD k ⟨0, 0⟩).im).sum
+      = ((List.range x.length).map fun p =>
+          x.getD p 0 * (imageFrom cos sin pi grid uv vis).getD p 0).sum := by
+  have h := adjoint_identity cos sin hcos hsin pi x grid uv vis
+  have hv : ∀ k, k < uv.length →
+      (visibilitiesFrom cos sin pi false x grid uv).getD k ⟨0, 0⟩
+        = Spec.visibility cos sin pi x grid (at2 uv k) := by
+    intro k hk
+    rw [a_visibilities cos sin pi false x grid uv hx]
+    simp [List.getD_eq_getElem?_getD, List.getElem?_range hk, Spec.visibility]
+  have hi : ∀ p, p < x.length →
+      (imageFrom cos sin pi grid uv vis).getD p 0 = Spec.adjointAt cos sin pi (at2 grid p) uv vis := by
+    intro p hp
+    rw [c_image_from]
+    have hp' : p < grid.length := by omega
+    simp [List.getD_eq_getElem?_getD, List.getElem?_range hp', Spec.adjointAt]
+  calc _ = ((List.range uv.length).map fun k =>
+            Spec.reConjMul (Spec.visibility cos sin pi x grid (at2 uv k)) (vis.getD k ⟨0, 0⟩)).sum := by
+          congr 1
+          apply List.map_congr_left
+          intro k hk
+          rw [hv k (by simpa using hk)]
+          rfl
+    _ = _ := by
+          rw [h]
+          congr 1
+          apply List.map_congr_left
+          intro p hp
+          rw [hi p (by simpa using hp)]
+
+/-! ## (d) interferometer normal equations -/
+
+/-- (d1) `data_vector[c] = Σ_k ( Re V_k · Re T[k,c] / (Re σ_k)² + Im V_k · Im T[k,c] / (Im σ_k)² )`
+    for the transformed mapping matrix `T`. -/
+theorem d_data_vector [Field α] (T : List (List (Cx α))) (nVis nCols : Nat) (vis noise : List (Cx α)) :
+    (dataVector T nVis nCols vis noise).toList
+      = (List.range nCols).map fun c =>
+          ((List.range nVis).map fun k =>
+            (vis.getD k ⟨0, 0⟩).re * (cxAt T k c).re / ((noise.getD k ⟨0, 0⟩).re ^ 2)
+            + (vis.getD k ⟨0, 0⟩).im * (cxAt T k c).im / ((noise.getD k ⟨0, 0⟩).im ^ 2)).sum := by
+  obtain ⟨hn, h⟩ := dataVector_spec T nVis nCols vis noise
+  unfold Arr.toList
+  rw [hn]
+  apply List.map_congr_left
+  intro c hc
+  exact h c (by simpa using hc)
+
+/-- (d2) `curvature_matrix[i,j] = Σ_k Re T[k,i] Re T[k,j] / (Re σ_k)² + Σ_k Im T[k,i] Im T[k,j] / (Im σ_k)²`
+    plus the configured diagonal value on the indices of linear objects without regularization. -/
+theorem d_curvature_matrix [Field α] (T : List (List (Cx α))) (nVis nCols : Nat) (noise : List (Cx α))
+    (noReg : List Nat) (hnd : noReg.Nodup) (d : α) (i j : Nat) :
+    (curvatureMatrix T nVis nCols noise noReg d).get i j
+      = ((List.range nVis).map fun k =>
+          (cxAt T k i).re * (cxAt T k j).re / ((noise.getD k ⟨0, 0⟩).re ^ 2)).sum
+        + ((List.range nVis).map fun k =>
+          (cxAt T k i).im * (cxAt T k j).im / ((noise.getD k ⟨0, 0⟩).im ^ 2)).sum
+        + (if i = j ∧ i ∈ noReg then d else 0) :=
+  curvatureMatrix_spec T nVis nCols noise noReg hnd d i j
+
+/-- (d3) hence the curvature matrix is symmetric. -/
+theorem d_curvature_symmetric [Field α] (T : List (List (Cx α))) (nVis nCols : Nat)
+    (noise : List (Cx α)) (noReg : List Nat) (hnd : noReg.Nodup) (d : α) (i j : Nat) :
+    (curvatureMatrix T nVis nCols noise noReg d).get i j
+      = (curvatureMatrix T nVis nCols noise noReg d).get j i := by
+  rw [d_curvature_matrix T nVis nCols noise noReg hnd d i j,
+    d_curvature_matrix T nVis nCols noise noReg hnd d j i]
+  have e1 : ((List.range nVis).map fun k =>
+      (cxAt T k i).re * (cxAt T k j).re / ((noise.getD k ⟨0, 0⟩).re ^ 2))
+      = ((List.range nVis).map fun k =>
+      (cxAt T k j).re * (cxAt T k i).re / ((noise.getD k ⟨0, 0⟩).re ^ 2)) := by
+    apply List.map_congr_left; intro k _; ring
+  have e2 : ((List.range nVis).map fun k =>
+      (cxAt T k i).im * (cxAt T k j).im / ((noise.getD k ⟨0, 0⟩).im ^ 2))
+      = ((List.range nVis).map fun k =>
+      (cxAt T k j).im * (cxAt T k i).im / ((noise.getD k ⟨0, 0⟩).im ^ 2)) := by
+    apply List.map_congr_left; intro k _; ring
+  rw [e1, e2]
+  by_cases h : i = j
+  · subst h; rfl
+  · have h' : ¬ j = i := fun e => h e.symm
+    simp [h, h']
+
+/-! ## non-vacuity -/
+
+/-- the two hypotheses of the adjoint clause hold for the real cosine and sine … -/
+example : (∀ x : ℝ, Real.cos (-x) = Real.cos x) ∧ (∀ x : ℝ, Real.sin (-x) = -Real.sin x) :=
+  ⟨Real.cos_neg, Real.sin_neg⟩
+
+/-- … so the adjoint clause instantiates at `ℝ` with `Real.cos`, `Real.sin`, `Real.pi`. -/
+example (x : List ℝ) (grid uv : List (ℝ × ℝ)) (vis : List (Cx ℝ)) (hx : x.length = grid.length) :=
+  c_adjoint_identity Real.cos Real.sin Real.cos_neg Real.sin_neg Real.pi x grid uv vis hx
+
+/-- the loops really run: exact integer arithmetic with `cos t = t + 1`, `sin t = t`, `π = 1`
+    (arbitrary stand-ins), two pixels, two baselines (the second one zero), a signed 2×2 matrix;
+    preloaded and direct paths agree and the transformed matrix is the column-wise transform. -/
+example :
+    let cos : Int → Int := fun t => t + 1
+    let sin : Int → Int := fun t => t
+    let grid : List (Int × Int) := [(1, 2), (0, -1)]
+    let uv : List (Int × Int) := [(1, 1), (0, 0)]
+    visibilitiesFrom cos sin 1 false [3, -2] grid uv = [⟨-21, -22⟩, ⟨1, 0⟩]
+    ∧ visibilitiesFrom cos sin 1 true [3, -2] grid uv = [⟨-21, -22⟩, ⟨1, 0⟩]
+    ∧ transformMappingMatrix keepNonzero cos sin 1 true [[3, 0], [-2, 5]] 2 grid uv
+        = [[⟨-21, -22⟩, ⟨15, 10⟩], [⟨1, 0⟩, ⟨5, 0⟩]]
+    ∧ transformMappingMatrix keepNonzero cos sin 1 false [[3, 0], [-2, 5]] 2 grid uv
+        = [[⟨-21, -22⟩, ⟨15, 10⟩], [⟨1, 0⟩, ⟨5, 0⟩]]
+    ∧ imageFrom cos sin 1 grid uv [⟨1, 2⟩, ⟨-1, 3⟩] = [-6, 2] := by
+  decide
 
 end C13
